@@ -256,4 +256,96 @@ def run(ctx):
         run.instance(R5, {"fn": "keys::new_acct_path", "obligation": "an existing label is refused before save_acct_path"}, held=h)
         if not h:
             run.finding(Finding(R5, na.id, "save_acct_path is reachable for a label that already exists (the mapping of the existing account would be overwritten)", site=na.loc()))
+    R6 = "C15.R6"
+    run.rule(R6, "the highest child index a scan records per account is a running maximum: it is only raised, never replaced by the index of a later, smaller output", floor=2)
+    MAP_T = "HashMap<grin_keychain::types::Identifier, u32>"
+    HM = "std::collections::hash::map::HashMap::<K, V, S, A>::"
+    for fid, f in sorted(db.fns.items()):
+        if non_production(fid) or not fid.startswith(SCAN):
+            continue
+        writes = []  # (block, value operand or None, how)
+        for b, t in f.calls():
+            if t.get("f") == HM + "insert" and len(t["a"]) == 3:
+                p0 = vf.op_place(t["a"][0])
+                if p0 and MAP_T in (f.locals[p0[0]].get("ty") or ""):
+                    writes.append((b, t["a"][2], "insert"))
+        for b, bb in enumerate(f.bbs):
+            for st in bb["s"]:
+                if st["k"] == "a" and st["d"][1] and st["d"][1] == ["*"] and (f.locals[st["d"][0]].get("ty") or "") == "&mut u32":
+                    pr = vf.producers(f, {"m": [st["d"][0], []]})
+                    if any(x[0] in ("call", "mutcall") and ("hash::map" in x[1] or "hash_map" in x[1]) for x in pr) and st["r"]["k"] == "use":
+                        writes.append((b, st["r"]["o"], "entry"))
+        if not writes:
+            continue
+        fl = vf.get_flow(f)
+        old = lambda o: any(x[0] in ("call", "mutcall") and ("hash::map" in x[1] or "hash_map" in x[1]) and not x[1].endswith("::insert") for x in o)
+        for b, val, how in writes:
+            kv = vf.const_of_operand(f, val)
+            if kv is not None:
+                # a constant start value only for a key that is not there yet
+                held = False
+                if kv == "0":
+                    for cb, _ct in cfg.find_calls(f, HM + "contains_key"):
+                        g_ = cfg.call_guard(f, cb)
+                        if g_.fail and cfg.must_pass(f, g_.fail, {b})[0]:
+                            held = True
+                    if how == "entry":
+                        held = False
+                run.instance(R6, {"fn": pp.short(fid), "obligation": "a start value is written only for a key not yet in the map", "value": kv}, held=held)
+                if not held:
+                    run.finding(Finding(R6, fid, "the recorded highest child index can be reset to a constant for an account already seen", site=c.site_of(f, b)))
+                continue
+            vo = fl.of_operand(val)
+            vsrc = {x for x in vo if x[0] == "field"}
+            newer = lambda o: bool(vsrc & set(o)) and not old(o)
+            held = any(x[0] == "call" and (x[1].endswith("::max") or x[1].endswith("cmp::max")) for x in vf.producers(f, val))
+            found = []
+            for x in cfg.comparisons(f):
+                op = x.normalized(newer, old, fl)
+                if op is None:
+                    continue
+                found.append((op, x.site()))
+                edges = x.true_edges if op in ("Ge", "Gt") else (x.false_edges if op in ("Lt", "Le") else set())
+                if edges and cfg.must_pass(f, edges, {b})[0]:
+                    held = True
+            run.instance(R6, {"fn": pp.short(fid), "obligation": "the index is recorded only on the edge `new >= recorded` (or through max())", "comparisons": found}, held=held)
+            if not held:
+                run.finding(Finding(R6, fid, "the highest child index recorded for an account can be lowered by a later output with a smaller index (after the restore the next path would not lie beyond every path found)", site=c.site_of(f, b)))
+    R7 = "C15.R7"
+    run.rule(R7, "the child index a scan restores covers every output found on chain, not only those missing in this run (an interrupted restore leaves outputs that a later scan finds present)", floor=1)
+    sc7 = ctx.fn(SCAN + "scan")
+    if sc7 is None:
+        run.error("C15.R7: scan not found")
+    else:
+        PASS = ("IntoIterator::into_iter", "::iter", "Clone::clone", "Deref::deref", "Iterator::cloned", "Iterator::copied", "Iterator::by_ref", "Iterator::enumerate", "Iterator::rev")
+
+        def _base(f, o, depth=0):
+            pr = vf.producers(f, o)
+            calls = [x for x in pr if x[0] == "call"]
+            if len(pr) == 1 and calls and calls[0][1].endswith(PASS) and depth < 8:
+                return _base(f, f.bbs[calls[0][2]]["t"]["a"][0], depth + 1)
+            return pr
+
+        heads = [b for b, t in sc7.calls() if (t.get("f") or "").endswith("Iterator::next") and vf.has_call(_base(sc7, t["a"][0]), SCAN + "collect_chain_outputs")]
+        # blocks that write the per-account maximum: a call handed `&mut HashMap<Identifier, u32>`
+        wr = set()
+        for b, t in sc7.calls():
+            for a in t["a"]:
+                pl = vf.op_place(a)
+                if pl and not pl[1] and (sc7.locals[pl[0]].get("ty") or "").startswith("&mut ") and MAP_T in sc7.locals[pl[0]]["ty"]:
+                    wr.add(b)
+        if not heads:
+            run.error("C15.R7: no loop over the outputs returned by collect_chain_outputs found in scan")
+        covered = False
+        for h in heads:
+            err = cfg.error_return_blocks(sc7)
+            # can an iteration get from the loop head back to it without writing the map?
+            starts = tuple(s_ for s_ in sc7.succ(h))
+            par = cfg.reach(sc7, starts=starts, cut_nodes=frozenset(wr | err))
+            back = any(h in sc7.succ(b) for b in par)
+            if not back and wr:
+                covered = True
+        run.instance(R7, {"fn": "scan", "obligation": "every output found on chain counts towards the restored child index (each iteration of a loop over collect_chain_outputs' result updates the per-account maximum)", "loops": [c.site_of(sc7, h) for h in heads], "map writes": len(wr)}, held=covered)
+        if not covered:
+            run.finding(Finding(R7, sc7.id, "the restored child index only counts outputs restored in this run: after an interrupted restore (outputs committed, index not yet) no later scan raises the index and paths that are on chain are handed out again", site=sc7.loc()))
     run.not_decided += ["uniqueness over all histories/restarts as such (R1-R3 are the conditions under which the counter discipline implies it)", "LMDB durability of the committed index"]
